@@ -1,40 +1,44 @@
 #!/bin/bash
-# verify_seed.sh <seed id, e.g. C05a> : independent confirmation of a seeded change produced by a sub-agent.
-# Uses a FRESH scratch worktree of /repo's pinned base commit (outside /repo and /verif), removed afterwards.
-#   1. patch applies, project builds, test binaries compile
-#   2. demo test FAILS with the patch, PASSES without it
-#   3. existing suite (hashgraph etc. directly; src/node in a private network namespace) passes with the patch
+# verify_seed.sh <seed id> : independent confirmation of a seeded change produced by a sub-agent, in a FRESH scratch
+# worktree of the pinned base commit (outside /repo and /verif), removed afterwards.
 set -u
 id="$1"; out="/tmp/seed_out/$id"; base="${SEED_BASE:-4c29a34}"
 wt="/tmp/seedverify_$id"; log="/tmp/seedlogs/$id.log"
 export GOFLAGS=-mod=mod GOPROXY=off GOSUMDB=off GOTOOLCHAIN=local
-exec >"$log" 2>&1
+mkdir -p /tmp/seedlogs; exec >"$log" 2>&1
 git -C /repo worktree remove --force "$wt" 2>/dev/null; rm -rf "$wt"
 git -C /repo worktree add --detach "$wt" "$base" -q || exit 9
-trap 'git -C /repo worktree remove --force "$wt"; rm -rf "$wt"' EXIT
-cd "$wt"
-demo_dest=$(grep -oE 'src/[A-Za-z0-9_/]+_test\.go' "$out/NOTES.md" | head -1)
-pkgs=""
-for f in "$out"/demo/*; do
-  bn=$(basename "$f")
-  d=$(grep -oE "src/[A-Za-z0-9_/]+/$bn" "$out/NOTES.md" | head -1)
-  [ -z "$d" ] && d="$demo_dest"
-  [ -z "$d" ] && { echo "RESULT demo-destination-unknown"; exit 8; }
-  cp "$f" "$wt/$d"; pkgs="$pkgs ./$(dirname "$d")"
-  echo "demo $bn -> $d"
-done
-pkgs=$(echo $pkgs | tr ' ' '\n' | sort -u | tr '\n' ' ')
-names=$(grep -hoE '^func (Test[A-Za-z0-9_]+)' "$out"/demo/*_test.go | sed 's/func //' | paste -sd'|')
+trap 'cd /; git -C /repo worktree remove --force "$wt"; rm -rf "$wt"' EXIT
+cd "$wt"; mkdir -p src/node/test_data; cp /repo/go.sum . 2>/dev/null
+: > demo_files.txt
+if [ -d "$out/demo/src" ]; then
+  (cd "$out/demo" && find src -type f) | while read f; do mkdir -p "$(dirname "$f")"; cp "$out/demo/$f" "$f"; echo "$f" >> demo_files.txt; done
+else
+  for f in "$out"/demo/*; do
+    bn=$(basename "$f")
+    d=$(grep -oE "src/[A-Za-z0-9_/]+/$bn" "$out/NOTES.md" | head -1)
+    [ -z "$d" ] && d=$(grep -oE 'src/[A-Za-z0-9_/]+_test\.go' "$out/NOTES.md" | head -1)
+    [ -z "$d" ] && { echo "RESULT demo-destination-unknown"; exit 8; }
+    cp "$f" "$d"; echo "$d" >> demo_files.txt
+  done
+fi
+cat demo_files.txt
+pkgs=$(for f in $(cat demo_files.txt); do echo "./$(dirname $f)"; done | sort -u | tr '\n' ' ')
+names=$(grep -hoE '^func (Test[A-Za-z0-9_]+)' $(cat demo_files.txt) | sed 's/func //' | paste -sd'|')
 echo "demo tests: $names in $pkgs"
-run_demo() { unshare -n -r sh -c "ip link set lo up 2>/dev/null; go test -vet=off -count=1 -timeout 10m -run '^($names)\$' $pkgs"; }
+run_demo() { unshare -n -r sh -c "ip link set lo up 2>/dev/null; go test -vet=off -count=1 -timeout 10m -run '^($names)\$' $pkgs" 2>&1 | grep -E "^(--- FAIL|FAIL|ok|panic|    [a-z_]+_test.go)" | cut -c1-300 | head -40; return ${PIPESTATUS[0]}; }
 echo "== demo WITHOUT patch"; run_demo; r0=$?
 git apply --check "$out/patch.diff" || { echo "RESULT patch-does-not-apply"; exit 7; }
 git apply "$out/patch.diff"
 echo "== build WITH patch"; go build ./... && go test -vet=off -count=1 -run '^$' ./... >/dev/null; rb=$?
 echo "== demo WITH patch"; run_demo; r1=$?
 echo "== suite WITH patch (demo files removed)"
-for f in "$out"/demo/*; do bn=$(basename "$f"); find "$wt/src" -name "$bn" -newer "$wt/go.mod" -delete; done
+rm -f $(cat demo_files.txt)
 git status --short | head
-go test -vet=off -count=1 -timeout 25m $(go list ./... | grep -v '/src/node$') 2>&1 | grep -v '^ok\|no test files' ; rs1=${PIPESTATUS[0]}
-unshare -n -r sh -c "ip link set lo up 2>/dev/null; go test -vet=off -count=1 -timeout 25m ./src/node/" 2>&1 | tail -15; rs2=${PIPESTATUS[0]}
-echo "RESULT demo_without=$r0 (want 0) build=$rb (want 0) demo_with=$r1 (want !=0) suite_other=$rs1 suite_node=$rs2 (want 0; known flaky: TestJoinFull TestJoinLateExtra TestLeaveRequest; TestWebRTCGossip needs a non-loopback interface)"
+go test -vet=off -count=1 -timeout 25m $(go list ./... | grep -v '/src/node$' | grep -v '/src/net$') 2>&1 | grep -E "^(--- FAIL|FAIL|panic)"; rs1=${PIPESTATUS[0]}
+rs3=1; for i in 1 2 3 4; do if go test -vet=off -count=1 ./src/net/ > net_suite.out 2>&1; then rs3=0; break; fi; sleep 7; done
+[ $rs3 != 0 ] && grep -E "^(--- FAIL|FAIL|panic)" net_suite.out | head
+unshare -n -r sh -c "ip link set lo up 2>/dev/null; go test -vet=off -count=1 -timeout 25m ./src/node/" > node_suite.out 2>&1; rs2=$?
+grep -E "^(--- FAIL|FAIL|ok|panic)" node_suite.out | head -20
+nodefails=$(grep -E "^--- FAIL" node_suite.out | grep -vE "TestWebRTCGossip|TestJoinFull|TestJoinLateExtra|TestLeaveRequest" | wc -l)
+echo "RESULT demo_without=$r0 (want 0) build=$rb (want 0) demo_with=$r1 (want !=0) suite_other=$rs1 suite_net=$rs3 (want 0) suite_node_unexpected_failures=$nodefails (want 0; ignored: known flaky TestJoinFull TestJoinLateExtra TestLeaveRequest, and TestWebRTCGossip which needs a non-loopback interface)"
